@@ -27,15 +27,47 @@ Definition C10_kind_of_flags (on_eq on_ineq : bool) : C10_kind :=
   match on_eq, on_ineq with
   | true, true => KPhysical | true, false => KEq | false, true => KIneq | false, false => KIdentity end.
 
-(* [cached] : algo._func_proj when it is already set ("if self._func_proj is not None: return").
-   NOTE (read from qoperation.py:1114-1131): func_calc_proj_physical_with_var accepts mode_proj_order but its closure
-   calls self.calc_proj_physical_with_var, which reads self.mode_proj_order — the TEMPLATE's order; the option's
-   order [o_order] is dropped.  The model records what the code does. *)
+(* [cached] : a projection the algorithm object already holds and KEEPS (see [C10_configure] below for which ones are kept).
+   The closure built by func_calc_proj_physical_with_var(on_para_eq_constraint, mode_proj_order, max_iteration) runs the
+   Dykstra loop in the order it is GIVEN, i.e. the option's order [o_order]  — this is the code with the repair
+   /verif/fixes/qoperation-func-proj-physical-with-var-order.diff (qoperation.py: the closure calls
+   calc_proj_physical_with_var on a copy of the template whose mode_proj_order is set from the argument). *)
 Definition C10_select (cached : option C10_desc) (t : C10_template) (o : C10_option) : C10_desc :=
   match cached with
   | Some d => d
   | None => {| d_kind := C10_kind_of_flags (o_eq o) (o_ineq o); d_on_para := t_on_para t;
+               d_order := o_order o; d_maxit := o_maxit_proj o |}
+  end.
+
+(* AS CODED BEFORE FIX qoperation-func-proj-physical-with-var-order (qoperation.py:1114-1131 of the pinned tree): the closure
+   called self.calc_proj_physical_with_var, which reads self.mode_proj_order — the TEMPLATE's order (always "eq_ineq": the
+   Standard* tomography constructors have no such argument); the option's order was dropped.  Not used by the harness
+   except to name the failure class when the implementation behaves like this again. *)
+Definition C10_select_before_fix (cached : option C10_desc) (t : C10_template) (o : C10_option) : C10_desc :=
+  match cached with
+  | Some d => d
+  | None => {| d_kind := C10_kind_of_flags (o_eq o) (o_ineq o); d_on_para := t_on_para t;
                d_order := t_order t; d_maxit := o_maxit_proj o |}
+  end.
+
+(* ---- the algorithm object across successive configurations (LossMinimizationEstimator calls set_constraint_... once per job and
+   algorithm objects are re-used).  This is the code WITH the repair /verif/fixes/pgd-cached-func-proj.diff (owner C13):
+   a projection handed to the constructor ([a_given]) is kept for every configuration; a projection derived from (qt, option)
+   ([a_derived]) is rebuilt on every configuration. *)
+Record C10_algo := { a_given : option C10_desc; a_derived : option C10_desc }.
+Definition C10_installed (a : C10_algo) : option C10_desc :=
+  match a_given a with Some d => Some d | None => a_derived a end.
+Definition C10_configure (a : C10_algo) (c : C10_template * C10_option) : C10_algo :=
+  match a_given a with
+  | Some _ => a
+  | None => {| a_given := None; a_derived := Some (C10_select None (fst c) (snd c)) |}
+  end.
+(* AS CODED BEFORE FIX pgd-cached-func-proj ("if self._func_proj is not None: return"): whatever is installed is kept, also a
+   projection derived for an earlier job *)
+Definition C10_configure_before_fix (a : C10_algo) (c : C10_template * C10_option) : C10_algo :=
+  match C10_installed a with
+  | Some _ => a
+  | None => {| a_given := None; a_derived := Some (C10_select None (fst c) (snd c)) |}
   end.
 
 Section Apply.
@@ -100,6 +132,14 @@ Definition C10_proj_physical (n : nat) (Peq Pineq : vec -> vec) (eps : F) (order
 Definition C10_proj_physical_with_var (n : nat) (to_stacked to_var : vec -> vec) (Peq Pineq : vec -> vec) (eps : F)
   (order : C10_order) (maxit : nat) (v : vec) : option vec :=
   option_map to_var (C10_proj_physical n Peq Pineq eps order maxit (to_stacked v)).
+
+(* the closure installed for (eq on, ineq on), acting on stacked vectors (on_para_eq_constraint=False: variables = stacked
+   vector), made total: calc_proj_physical_with_var fails only for max_iteration = 0 (then: the argument) *)
+Definition C10_phys_total (n : nat) (Peq Pineq : vec -> vec) (eps : F) (order : C10_order) (maxit : nat) : vec -> vec :=
+  fun v => match C10_proj_physical n Peq Pineq eps order maxit v with Some r => r | None => v end.
+(* the projection applied LAST in a sweep of the given order *)
+Definition C10_last_proj (Peq Pineq : vec -> vec) (order : C10_order) : vec -> vec :=
+  match order with EqIneq => Pineq | IneqEq => Peq end.
 
 (* ------------------------------------------------------------------ 3. linear / projected linear estimate *)
 (* nv variables, nd data rows; A is nd x nv, M is nv x nv (the code's inverse of A^T A) *)
@@ -207,7 +247,9 @@ Definition C10_eq_constraint (ty : C10_qtype) (d2 m : nat) (sd : F) (v : vec) : 
 (* ------------------------------------------------------------------ 8b. variable-level inequality projection *)
 (* QOperation.func_calc_proj_ineq_constraint_with_var: variables -> object -> clip negative eigenvalues -> variables.
    With on_para_eq_constraint=True [to_var] drops the component fixed by the equality constraint and [to_stacked]
-   re-inserts its nominal value. *)
+   re-inserts its nominal value.  (Installed for the flags (eq off, ineq on) — a configuration with one of the two
+   constraint options OFF, which the property does not quantify over; modelled to tie the code and to state why the
+   feasibility theorems are not applicable there.) *)
 Definition C10_proj_ineq_with_var (to_stacked to_var Pineq : vec -> vec) (v : vec) : vec := to_var (Pineq (to_stacked v)).
 
 (* An exactly rational instance: DIAGONAL two-qubit states in the normalised Pauli basis (II, IZ, ZI, ZZ)/2, sd = 2.
